@@ -877,6 +877,13 @@ impl<'a, 'b> Gen<'a, 'b> {
                         _ => sf,
                     };
                     fields.push((k.clone(), e));
+                } else if self.t.chance(1, 6) {
+                    // `self` used only as the base of an inner copy: base{k = self{k2 = literal}.k}
+                    self.mark("copy-self-as-copy-base");
+                    let (k2, t2) = fs[self.t.choice(fs.len())].clone();
+                    let lit = self.literal(&t2, d);
+                    let inner = E::Copy { base: "self".into(), path: vec![], fields: vec![(k2, lit)] };
+                    fields.push((k.clone(), E::Field(Box::new(inner), Sel::Name(k.clone()))));
                 } else if !self.cfg.well_typed_only && self.t.chance(1, 10) {
                     self.mark("copy-type-change");
                     let other = if *t == Ty::Int { Ty::Str } else { Ty::Int };
